@@ -510,19 +510,50 @@ func ruleLoadTypeDeps(c *Ctx, r *R) {
 	}
 	fns := c.staticReach([]string{"treeSort"}, func(*ast.FuncDecl) bool { return false })
 	scans := ""
+	rootSeen := false // the test is applied to the node the scanner is given, not only to its children
 	for _, f := range fns {
+		params := map[types.Object]bool{}
+		for _, fl := range f.Type.Params.List {
+			for _, nm := range fl.Names {
+				params[c.Info.Defs[nm]] = true
+			}
+		}
+		subject := func(e ast.Expr) {
+			// e is the expression compared with "(name)": <x>.Symbol
+			sel, ok := unparen(e).(*ast.SelectorExpr)
+			if !ok || sel.Sel.Name != "Symbol" {
+				return
+			}
+			switch b := unparen(sel.X).(type) {
+			case *ast.Ident:
+				if params[c.Obj(b)] {
+					rootSeen = true
+				}
+			case *ast.IndexExpr:
+				// d.Tokens[1].Symbol at the call site: the definition itself
+				if c.isTokensField(b.X) {
+					if k, ok := c.ConstInt(b.Index); ok && k == 1 {
+						rootSeen = true
+					}
+				}
+			}
+		}
 		ast.Inspect(f.Body, func(n ast.Node) bool {
 			switch x := n.(type) {
 			case *ast.BinaryExpr:
-				for _, e := range []ast.Expr{x.X, x.Y} {
+				for i, e := range []ast.Expr{x.X, x.Y} {
 					if v, ok := c.ConstString(e); ok && v == "(name)" && (x.Op == token.EQL || x.Op == token.NEQ) {
 						scans = c.fnName(f)
+						subject([]ast.Expr{x.Y, x.X}[i])
 					}
 				}
 			case *ast.CaseClause:
 				for _, e := range x.List {
 					if v, ok := c.ConstString(e); ok && v == "(name)" {
 						scans = c.fnName(f)
+						if sw, ok := c.Parent(c.Parent(x)).(*ast.SwitchStmt); ok && sw.Tag != nil {
+							subject(sw.Tag)
+						}
 					}
 				}
 			}
@@ -531,6 +562,10 @@ func ruleLoadTypeDeps(c *Ctx, r *R) {
 	}
 	r.check(scans != "", "type definitions scanned", c.Pos(fd), "the sorter looks at the names a type definition mentions",
 		"treeSort hoists the named non-struct types but leaves them in source order: `type Grid []Row` declared before `type Row []int` (or `type C B; type B A`) is compiled while Row is unknown — elements lose their type, a struct made from C fails with `Object is nil, not *structT`")
+	if scans != "" {
+		r.check(rootSeen, "definition root examined", c.Pos(fd), "the name test applies to the definition node itself",
+			"the scan for mentioned type names looks only at the children of the node it is given: a direct definition `type Celsius Temp` (whose definition IS the name) is not held back until `type Temp float64` is compiled, and Celsius becomes a struct type Temp")
+	}
 	// the reordered declarations reach the tree: an element of the top-level list is assigned
 	writes := false
 	ast.Inspect(fd.Body, func(n ast.Node) bool {
